@@ -240,6 +240,41 @@ def run(prog, chk):
                            f.short, SX.show(w.e)[:50], '' if not leak else '; reaches %s without one' % SX.show(leak[0].e)[:40]), key='ctx-switch:%s' % f.short)
     chk.count('class-context switches followed by evaluation', nsw, 4)
 
+    # ---- R09.2: interpreter context is restored when an activation ends ----------------------------------------------
+    chk.rule('R09.2', 'every activation that changes the lexical context (class context, static/constructor/destructor mode) saves it first and restores it on every normal exit')
+    ctx_members = [f_['name'] for f_ in R.ev['fields'] if (f_['type'].endswith('RuntimeClass *') and 'ctx' in f_['name'].lower()) or
+                   (f_['type'] == 'bool' and f_['name'].lower().startswith('m_in'))]
+    nsr = 0
+    for f in evfns:
+        if f.kind == 'lambda' or f.short in ('execute',):
+            continue
+        g = None
+        for M_ in ctx_members:
+            ws = [n for n in SX.walk(f.body, into_lambdas=False) if (lambda w: w and SX.is_this_member(SX.strip(w[0]), M_))(SX.write_target(n))]
+            if not ws:
+                continue
+            g = g or prog.cfg(f)
+            saves = [d for d in g.nodes if d.kind == 'decl' and SX.is_this_member(SX.strip(d.e.get('init')), M_)]
+            saved_ids = {d.e['id'] for d in saves}
+            writes = [(n, SX.strip(r)) for n, l, r, op in g.writes() if SX.is_this_member(SX.strip(l), M_)]
+            sets = [n for n, r in writes if not (SX.is_node(r) and r.get('k') == 'ref' and r.get('id') in saved_ids)]
+            restores = [n for n, r in writes if SX.is_node(r) and r.get('k') == 'ref' and r.get('id') in saved_ids]
+            if not sets:
+                continue
+            nsr += 1
+            # an RAII guard (reference member bound to M, saved copy, destructor assigns it back) is the same discipline
+            raii = [cn for cn in g.nodes if cn.kind == 'decl' and SX.is_node(cn.e.get('init')) and cn.e['init'].get('k') == 'construct' and cn.e['init'].get('type') in guards
+                    and guards[cn.e['init']['type']][0] < len(cn.e['init'].get('args', [])) and SX.is_this_member(SX.strip(cn.e['init']['args'][guards[cn.e['init']['type']][0]]), M_)]
+            if raii and all(g.must_precede(raii, x) or x in raii for x in sets):
+                chk.ob('R09.2', f, sets[0].ln or f.ln, True, '%s changes %s under a scope guard that restores it' % (f.short, M_), key='ctx-restore:%s:%s' % (f.short, M_))
+                continue
+            ok_save = bool(saves) and all(g.must_precede(saves, x) for x in sets)
+            ok_rest = bool(restores) and all(g.must_follow(x, restores) for x in sets)
+            chk.ob('R09.2', f, sets[0].ln or f.ln, ok_save and ok_rest,
+                   '%s changes %s: saved before the change (%s) and restored on every normal exit (%s) — otherwise the caller continues in the callee\'s lexical context and its bare '
+                   'names resolve in the wrong class' % (f.short, M_, ok_save, ok_rest), key='ctx-restore:%s:%s' % (f.short, M_))
+    chk.count('context changes with save/restore obligations', nsr, 10)
+
     # ---- writers of M ------------------------------------------------------------------------
     nW = 0
     for f in prog.functions:
